@@ -1483,7 +1483,9 @@ RULE = ("run i draws, from random.Random(splitmix64(VERIF_SEED,'C12',i)), a "
         "configuration (2-4 currencies, 3-4 money converters with pairwise "
         "different rates - constant or dated with a configured date "
         "callable, twins, converters lacking rates -, 3 generic converters: "
-        "scripted stubs (also unhashable, bound methods, retiring ones), "
+        "scripted stubs (also unhashable, bound methods, retiring ones, "
+        "ones that unregister OTHER converters - and register a third - "
+        "while they are consulted), "
         "real TableConverters and TableConverter sub-classes that decline) "
         "and a token list of <=30 ops over {enter c (optionally with the "
         "date callable failing on entry), leave, raise(levels, also "
@@ -1494,7 +1496,9 @@ RULE = ("run i draws, from random.Random(splitmix64(VERIF_SEED,'C12',i)), a "
         "is made from another thread'}, the first tokens enumerating all "
         "short prefixes, executed with genuine nested with-statements; "
         "after every token the converter lists and conversions for every "
-        "ordered unit pair are compared with the RefStack model. A history "
+        "ordered unit pair (by convert(), by the operators and - per-run "
+        "knob - by Quantity(string, unit)) are compared with the RefStack "
+        "model. A history "
         "is distinct by the digest of (configuration, tokens) and "
         "non-trivial when >=1 fault actually fired (exceptional exit, "
         "rejected removal/registration, __exit__ not on top, conversion "
